@@ -166,6 +166,31 @@ Section CropN.
     let g1 := if as_trrel x <? as_vswell x then g0 * as_trrel x else g0 in
     let maint := if g1 <? as_maint_pot x then g1 else as_maint_pot x in
     (if as_cold x then maint else g1, maint).
+  (* ------------------------------------------------------------------ *)
+  (* 10. the three day lengths of CalculateDayLenght (hermes/solar.go:19-27): astronomical DL, effective DLE (sun more
+         than 8 degrees above the horizon), photoperiodic DLP (civil twilight, 6 degrees below).  SINLD, COSLD, sin(8 deg),
+         sin(-6 deg) and math.Pi enter as values; the three math.Asin results are oracles, the model computes their
+         ARGUMENTS: each ratio is shifted first and clamped to [-1,1] afterwards *)
+  Definition limit1 (v : T) : T := if gtb v one then one else if v <? opp one then opp one else v.   (* Limit(v, 1, -1) *)
+
+  Record dl_in := { dl_sinld : T; dl_cosld : T; dl_s8 : T; dl_s6 : T; dl_pi : T;
+                    dl_v0 : T; dl_v1 : T; dl_v2 : T (* oracles: asin of the three arguments *) }.
+
+  Definition dl_args (x : dl_in) : T * T * T :=
+    (limit1 (dl_sinld x / dl_cosld x),
+     limit1 ((opp (dl_s8 x) + dl_sinld x) / dl_cosld x),
+     limit1 ((opp (dl_s6 x) + dl_sinld x) / dl_cosld x)).
+
+  Definition dl_hours (pi v : T) : T := ofZ 12 * (pi + two * v) / pi.
+
+  (* (DL, DLE, DLP) *)
+  Definition daylengths (x : dl_in) : T * T * T :=
+    (dl_hours (dl_pi x) (dl_v0 x), dl_hours (dl_pi x) (dl_v1 x), dl_hours (dl_pi x) (dl_v2 x)).
+
+  (* ------------------------------------------------------------------ *)
+  (* 11. season means of the stress factors in the crop record (hermes/nitro.go:327-328):
+         sum over the days of the season / number of days between sowing and harvest (ERNTE - SAAT) *)
+  Definition season_mean (total : T) (saat ernte : Z) : T := total / ofZ (ernte - saat).
 End CropN.
 
 (* ---------------------------------------------------------------------- *)
